@@ -150,23 +150,12 @@ def spec (c : Case) (o : Obs) : Bool :=
   o.setattrReset == dictReset c &&
   o.runtimeDiff == []
 
-/-- K08a: a property setter / deleter that uses `__class__` / `super()` through a cell no function the loop
-    inspects shares keeps the original class -/
-def staleAccessor (c : Case) : Bool :=
-  (calls c).any (fun lv => (lv.1.2 == .fset || lv.1.2 == .fdel) && lv.2 != .new)
-
-/-- K08b: the body's own `__slots__` lists `__weakref__`: the build neither keeps it nor adds it -/
-def weakrefDropped (c : Case) : Bool :=
-  c.weakrefSlot && (c.bodySlots.getD []).contains "__weakref__" && !weakrefInherited c
-
 /-- K6: the slotted build looks at the direct bases' own flag, the dict build at the flag resolved along the
     whole MRO ("slotted confused") -/
 def resetDiffers (c : Case) : Bool := (model c).setattrReset != dictReset c
 
 def known (c : Case) : List String :=
-  (if staleAccessor c then ["K08a"] else []) ++
-  (if weakrefDropped c then ["K08b"] else []) ++
-  (if resetDiffers c then ["K6"] else [])
+  if resetDiffers c then ["K6"] else []
 
 def check : Check Case Obs := { model := model, spec := spec, wf := wf, known := known }
 
